@@ -491,6 +491,14 @@ pub fn dump_case(prop: &str, id: &str, t: &Target, cfg: &DumpCfg, dest: &mut Rec
         std::fs::write(format!("{}.{}", base, f), data).ok();
     }
     std::fs::write(format!("{}.cpuinfo", base), std::fs::read("/proc/cpuinfo").unwrap_or_default()).ok();
+    // what uname(2) says: the OS version string of the system-info stream is "<sysname> <release> <version> <machine>"
+    {
+        let mut u: libc::utsname = unsafe { std::mem::zeroed() };
+        if unsafe { libc::uname(&mut u) } == 0 {
+            let f = |a: &[libc::c_char]| unsafe { std::ffi::CStr::from_ptr(a.as_ptr()) }.to_string_lossy().to_string();
+            std::fs::write(format!("{}.uname", base), format!("{} {} {} {}", f(&u.sysname), f(&u.release), f(&u.version), f(&u.machine))).ok();
+        }
+    }
     // the kernel's name of every thread (comm), for the thread-names stream
     {
         let mut comm = String::new();
